@@ -28,6 +28,11 @@ Definition ownership_ok (fields : list (string * bool)) (accs : list access) : b
 Definition not_owned (fields : list (string * bool)) (accs : list access) : list string :=
   map fst (filter (fun p => negb (snd p || field_ok accs (fst p))) fields).
 
+(* package-level maps: (variable, function, writes, takes the lock it needs: a write lock for writing, any lock for
+   reading; init functions exempt) *)
+Definition global_maps_ok (accs : list (string * string * bool * bool)) : bool :=
+  forallb (fun a => let '(_, _, _, ok) := a in ok) accs.
+
 (* ---------- part 2: traces ---------- *)
 Inductive ev := Acq (t l : nat) | Rel (t l : nat) | Acc (t x : nat) (w : bool).
 Definition thread (e : ev) : nat := match e with Acq t _ | Rel t _ | Acc t _ _ => t end.
